@@ -4,6 +4,14 @@ from ..harness import *
 from ..reference import semantics as sem
 
 
+def premise_number_from(prop, oc=True):
+    """the contract of Number::from(f64) that the eval_number obligations of other properties assume (merged call): decided here for all doubles,
+    so that a change to the conversion is reported by every check whose verdict rests on it"""
+    v = Leaf('f64', 'v')
+    return FnCall(prop, 'premise/Number::from(f64)/' + ('dbg' if oc else 'rel'), 'number', 'resolve:<number::Number as From<f64>>::from', [v],
+                  lambda vals: sem.number_from_f64_ref(vals[0]), lambda cz, v=v: ['FROMF', v.render(cz)], oc=oc, limits={'timeout_ms': 120000})
+
+
 def obligations(ctx):
     obs = []
     for oc in (True, False):
